@@ -91,11 +91,12 @@ package pot
 // strict shrinking are covered by the bounded stand-in of C16.)
 // what the levels up to amount x hold together (C16: a pot's total is what was put in between the previous published level and its own)
 //@ fun SUMLE(ll *LevelList, k int, x int64) int = ite(k <= 0, 0, SUMLE(ll, k - 1, x) + ite(ll.levels[k - 1].Level <= x, ll.levels[k - 1].Total, 0))
-//@ lemma SUMLE_step(ll *LevelList, k int, x int64) for SUMLE induction k props C16 :
+// (the third parameter plays the part of a level index here: govc instantiates a lemma wherever the sum is named with
+//  ground arguments, so naming SUMLE(ll, n, i) hands the solvers this fact for exactly that i - no quantifier to instantiate)
+//@ lemma SUMLE_idx(ll *LevelList, k int, x int64) for SUMLE induction k props C16 :
 //@      (forall a, b :: 0 <= a && a < b && b < len(ll.levels) ==> ll.levels[a].Level < ll.levels[b].Level)
-//@      && (forall a :: 0 <= a && a < len(ll.levels) ==> ll.levels[a].Level >= 0) && k <= len(ll.levels)
-//@      ==> (forall i :: 0 <= i && i < len(ll.levels) ==>
-//@             SUMLE(ll, k, ll.levels[i].Level) == SUMLE(ll, k, ite(i == 0, 0 - 1, ll.levels[i - 1].Level)) + ite(i < k, ll.levels[i].Total, 0))
+//@      && (forall a :: 0 <= a && a < len(ll.levels) ==> ll.levels[a].Level >= 0) && k <= len(ll.levels) && 0 <= x && x < len(ll.levels)
+//@      ==> SUMLE(ll, k, ll.levels[x].Level) == SUMLE(ll, k, ite(x == 0, 0 - 1, ll.levels[x - 1].Level)) + ite(x < k, ll.levels[x].Total, 0)
 // (frame: the sums do not depend on memory allocated later - the merged pots' own level lists)
 //@ lemma SUMLE_same(ll *LevelList, k int, x int64) for SUMLE induction k props C16 :
 //@      (forall i :: 0 <= i && i < k ==> ll.levels[i] == old(ll.levels[i]) && ll.levels[i].Level == old(ll.levels[i].Level) && ll.levels[i].Total == old(ll.levels[i].Total))
@@ -131,10 +132,8 @@ package pot
 //@   loop 3 invariant rangeindex >= 0 ==> pots[len(pots) - 1].Level == ll.levels[rangeindex].Level
 //@   loop 3 invariant forall j :: 0 <= j && j < len(pots) ==> pots[j].Wager == pots[j].Level - ite(j == 0, 0, pots[j - 1].Level)
 //@   loop 3 invariant forall a :: 0 <= a && a < len(ll.levels) ==> ll.levels[a].Level >= 0
-//@   -- (naming the sum once outside a quantifier is what makes govc instantiate lemma SUMLE_step for this level list)
-//@   loop 3 invariant [C16] SUMLE(ll, len(ll.levels), 0) == SUMLE(ll, len(ll.levels), 0)
-//@   -- (lemma SUMLE_step at the level the loop looks at next)
-//@   loop 3 invariant [C16] rangeindex + 1 < len(ll.levels) ==> SUMLE(ll, len(ll.levels), ll.levels[rangeindex + 1].Level)
-//@             == SUMLE(ll, len(ll.levels), ite(rangeindex + 1 == 0, 0 - 1, ll.levels[rangeindex].Level)) + ll.levels[rangeindex + 1].Total
+//@   -- (naming the sum outside a quantifier is what makes govc instantiate the lemmas: SUMLE_same for this heap, SUMLE_idx
+//@   --  for the level the loop looks at next)
+//@   loop 3 invariant [C16] SUMLE(ll, len(ll.levels), rangeindex + 1) == SUMLE(ll, len(ll.levels), rangeindex + 1)
 //@   loop 3 invariant [C16] forall j :: 0 <= j && j < len(pots) ==> pots[j].Total ==
 //@             SUMLE(ll, len(ll.levels), pots[j].Level) - SUMLE(ll, len(ll.levels), ite(j == 0, 0 - 1, pots[j - 1].Level))
